@@ -15,7 +15,10 @@ Tie:
        sub      — a parent handler calling the real `kopf.execute(handlers=…)` with two sub-handlers;
        activity — the real `activities.run_activity`;
        daemon   — the real `daemons._daemon`;
-       timer    — the real `daemons._timer` (several retry series, one per interval).
+       timer    — the real `daemons._timer` (several retry series, one per interval);
+       proc     — change / pair / sub histories through the real `processing.process_changing_cause` with a real
+                  registry, incl. STACKED registrations (one function & id for two reasons, the second cause
+                  superseding the first): one series per registration the code selected.
 The oracle (`oracle_point`, `oracle_sequence`) is written from the property text over the observed
 (virtual time, retry kwarg, raised kind, outcome, stored record) and never looks at the model.
 
@@ -40,7 +43,7 @@ from ..sim import simloop
 ID = "C11"
 LEVEL = "proof"
 ENGINES = ["lean-model", "purediff", "kopfsim"]
-STRENGTH = "partial"   # whole-history clauses only under named guards; three open findings (see LEVEL_TEXT)
+STRENGTH = "partial"   # whole-history clauses only under named guards; three open findings F2 F3 F6 (see LEVEL_TEXT)
 LEVEL_TEXT = (
     "Lean theorems by induction over the script (no bounds). UNGUARDED: per execution, for all limits/records/"
     "times — temporary and default-mode errors are retried with exactly the requested delay/backoff unless a limit "
@@ -69,9 +72,18 @@ LEVEL_TEXT = (
     "daemon's (a task that ended on its own is never spawned again). The timer's life is modelled with the object being "
     "changed at any time (per-iteration idleUntil): a running series is never restarted by the wait for idleness "
     "(timer_retry_steps). initial_delay= is not part of the timeout (initial_delay_not_counted). The self-driven loops give "
-    "up only on a finished record (loop_stops_only_when_finished). FALSE clause, open finding C11-F5: a stored record whose "
-    "timestamps carry no UTC offset (older releases) makes every cycle raise: never retried (naive_record_never_retried_witness, "
-    "naive_delayed_raises_forever; stored_aware_is_step for kopf's own spelling, Z and numeric offsets). ORACLE/TIE ONLY: several-handler activities and the parent/child "
+    "up only on a finished record (loop_stops_only_when_finished). A stored record is usable whatever the spelling of its "
+    "timestamps: without a UTC offset (older releases) it is treated exactly as the same record with +00:00 (naive_is_utc, "
+    "stored_is_step, unguarded; C11-F5 fixed by e01f630 — naive_record_never_retried_witness, naive_delayed_raises_forever, "
+    "naive_started_raises are regressions of the variant before the repair, stepStoredRaw). 'A handler' in 'with retries=N a "
+    "handler is invoked at most N times' is ONE REGISTRATION (one decorator with its own limits, bound to its reason) within the "
+    "handling of one cause: for one function registered under one id for two reasons the count, the clock and the delay start "
+    "anew when the second cause supersedes the first — CONFORMING, and what the code does for top-level handlers since f7d6401 "
+    "(namesake_retries_bound_partial, namesake_starts_from_scratch: each registration within its own N, the function up to "
+    "N1+N2 times in all; a handler without a reason of its own — resuming mix-in — is one handler for every cause and goes on). "
+    "FALSE of the code one level down, open finding C11-F6: the SUB-handlers of such a stacked parent still take over the records "
+    "of the superseded cause (first invocation with retry=k, failed by retries after fewer than N — even zero — invocations, or "
+    "never called because their namesake had finished; namesake_inherits_refused_witness, replayed: corpus F6). ORACLE/TIE ONLY: several-handler activities and the parent/child "
     "composition (S tie + oracle), 'recorded as failed for good' as an event for change handlers (needs a next "
     "cycle: C03). Tied to the code by a grid on the real execute_handler_once/with_outcome (complete in "
     "thorough) and closed-loop sequences on the real processing cycle (all_at_once and asap; stale/lost/kill "
@@ -85,7 +97,9 @@ TIE = ("D: bounded-exhaustive grid on the real execute_handler_once / execute_ha
        "life, idle iterations included, with and without idle=, with initial_delay=, the object changed at scripted "
        "moments incl. inside a retry series), a timer or a daemon through the real process_spawning_cause / _runner "
        "re-spawn layer (filters toggled by when=), change handlers and pairs also through the REAL "
-       "process_changing_cause with a real registry (resuming handlers, initial=True), sub-handlers passed to "
+       "process_changing_cause with a real registry (resuming handlers, initial=True; one function registered under one id "
+       "for two reasons with the second cause superseding the first: every registration's series against its own model run "
+       "from scratch, a stacked parent's sub-handlers as one inherited run), sub-handlers passed to "
        "kopf.execute() or registered in the parent's body and executed implicitly, the parent failing on its own; the "
        "model is given what the function WOULD still do: a loop that gives up early is a divergence")
 THEOREMS = [("Kopf.Props.C11", "Kopf.C11." + n) for n in [
@@ -111,8 +125,13 @@ THEOREMS = [("Kopf.Props.C11", "Kopf.C11." + n) for n in [
     # white-box round: the loop gives up only on a finished record; initial_delay=; a daemon across re-spawns;
     # records with foreign spellings of their timestamps (finding C11-F5)
     "loop_stops_only_when_finished", "loop_retries_when_due", "initial_delay_not_counted", "loop_finished_is_last",
-    "daemon_respawn_final_is_last", "stored_aware_is_step", "naive_record_never_retried_witness",
+    "daemon_respawn_final_is_last", "stored_aware_is_step",
+    # C11-F5 repaired by e01f630: every spelling is the aware one; the naive_* theorems are regressions of the
+    # variant before the repair (stepStoredRaw)
+    "naive_is_utc", "stored_is_step", "raw_aware_is_stored", "naive_record_never_retried_witness",
     "naive_delayed_raises_forever", "naive_started_raises",
+    # stacked registrations (one function, one id, two reasons; f7d6401)
+    "namesake_retries_bound_partial", "namesake_starts_from_scratch", "namesake_inherits_refused_witness",
 ]]
 RULE = ("grid: errors mode x default mode x timeout {None,0,10s,70s} x runtime band (before / look-ahead "
         "boundary -1q / boundary / T-1q / T / after) x call duration x retries {None,0,1,4} x stored retries "
@@ -126,7 +145,10 @@ RULE = ("grid: errors mode x default mode x timeout {None,0,10s,70s} x runtime b
         "timeout), timers and daemons with initial_delay= (below and above the timeout), timers whose object is changed "
         "1-8 times while they live, timers and daemons stopped by a filter mismatch and re-spawned through the real "
         "process_spawning_cause, 30 % of change/pair histories through the real process_changing_cause (reasons create/"
-        "update/resume, initial=True handlers), sub-handlers explicit or implicit with a parent that fails by itself, "
+        "update/resume, initial=True handlers; half of them with STACKED registrations: one id, two reasons — create/update then "
+        "delete, or the resuming mix-in with on-update in either registry order — own limits per registration, the second cause "
+        "after 1-4 cycles), 25 % of the sub-handler histories through it as well (70 % under a stacked parent), "
+        "sub-handlers explicit or implicit with a parent that fails by itself, "
         "TemporaryError without delay= (the documented 60 s), a legacy grid (1080 points: stored records with TZ-naive / Z / "
         "offset timestamps; always complete), 30 % long flavour (day-scale times, fractional timeouts), seven driver kinds; a case is distinct & non-trivial when its abstraction (limits "
         "class, raised kind, which branch the outcome took, gate) is new and not the plain-success path")
@@ -136,7 +158,8 @@ TRUSTED = [
     "the stub handler stands for user code: it raises the scripted exception after sleeping the scripted duration",
     "the closed loop around the change handlers re-implements the 12 lines of process_changing_cause that "
     "call State.from_storage/with_purpose/with_handlers/execute_handlers_once/with_outcomes/store and applies "
-    "the produced merge-patch to a dict body (no API server, no purge/extras/re-purposing: C02's subject); when "
+    "the produced merge-patch to a dict body (no API server, no purge/extras/re-purposing: C02's subject; the histories "
+    "with `proc` run the real process_changing_cause instead, with the cause handed to it by the harness); when "
     "the next cycle happens, which version of the body it is shown and whether its patch lands is the adversary's choice",
 ]
 ASSUMPTIONS = [
@@ -150,8 +173,21 @@ ASSUMPTIONS = [
     "own to be final; for change handlers a cycle that reports the handling as done (no delays; the real cycle purges "
     "the progress) must not leave a top-level handler whose last outcome was a retry (histories without stale/lost/kill "
     "steps). A sub-handler is abandoned when its parent fails for good: the parent's verdict",
-    "C11-F5: the oracle requires a stored record to be usable whatever the spelling of its timestamps (same instants); "
-    "TZ-naive ones are reported under the finding's signature, any other escaping exception is a violation",
+    "the oracle requires a stored record to be usable whatever the spelling of its timestamps (same instants; a timestamp "
+    "without an offset is UTC: what the older releases wrote); an exception escaping on a TZ-naive one is reported under "
+    "C11-F5's signature (fixed by e01f630: a violation again), any other escaping exception is a violation",
+    "'a handler' = one registration: one decorator application with its own errors/retries/timeout/backoff, bound to its "
+    "reason, counted within the handling of one cause (the limits belong to the handler object, and two stacked decorators "
+    "may give different ones). One function registered under one id for two reasons is two handlers; when the second cause "
+    "supersedes the first, the second registration's count, timeout clock and delay start anew (conforming; f7d6401), and the "
+    "first one's pending retry is dropped with its cause (supersession, not the error policy). The oracle splits what it "
+    "observes under one id into the series of the registrations the code selected (by the handler object executed) and checks "
+    "every clause per series, each against its own limits (a resuming handler — initial=True — is for 'the operator has "
+    "started': where a NEW operator process ran a finished one again, a new series begins; in one process never); "
+    "a first turn on a foreign record has no excuse there (a violation: "
+    "failed-by-retries-too-early, retry-kwarg-sequence, …). A handler without a reason (resuming mix-in, on.field, plain "
+    "reason=None) is one handler whatever the cause: one series. The same reading applied to the sub-handlers of a stacked "
+    "parent gives the open finding C11-F6 (the code carries their records over)",
     "the spacing guarantee is relative to the moment the outcome was merged (now of with_outcome), which is "
     "not earlier than the end of the call",
     "record continuity (every cycle starts from the record the handler's last attempt produced) is the guard of "
@@ -177,7 +213,8 @@ ASSUMPTIONS = [
     "'is recorded as failed for good' as an event is proved for the self-driven in-memory loops; for change "
     "handlers it needs a next cycle, which is the environment's (C03's subject)",
     "not modelled: idle-only timers (no interval), callable `initial_delay=`, nested sub-handlers and kopf.execute called twice in one parent call, non-zero "
-    "patch_and_check latency in _daemon/_timer (the stub's patch is empty), purpose switches of records",
+    "patch_and_check latency in _daemon/_timer (the stub's patch is empty), a cause flipping back (A, B, A again), "
+    "more than two registrations under one id",
     "handler ids are distinct (outcomes are keyed by id)",
 ]
 
@@ -361,7 +398,8 @@ def mk_handler(kind: str, hid: str, fn: Any, l: dict, **extra: Any) -> Any:
                field=None, value=None)
     if kind == "changing":
         return K.handlers.ChangingHandler(**common, **res, old=None, new=None, field_needs_change=None,
-                                          initial=extra.get("initial"), deleted=None, requires_finalizer=None, reason=None)
+                                          initial=extra.get("initial"), deleted=None, requires_finalizer=None,
+                                          reason=K.causes.Reason(extra["reason"]) if extra.get("reason") else None)
     if kind == "daemon":
         return K.handlers.DaemonHandler(**common, **res, requires_finalizer=None, initial_delay=sec(extra.get("initial_delay")),
                                         cancellation_backoff=None, cancellation_timeout=None, cancellation_polling=None)
@@ -458,6 +496,7 @@ def oracle_attempt(l: dict, default_errors: str, default_backoff: int, a: dict) 
 F2_SHAPE = "re-invoked on a record that does not continue the handler's last attempt"
 F3_SHAPE = "timed-out-before-first-invocation"
 F4_SHAPE = "failed-timer-respawned"
+F6_SHAPE = "sub-handlers-of-a-stacked-parent-inherit-the-superseded-cause's-progress"
 
 
 def continues(prev: dict | None, e: dict) -> bool:
@@ -476,15 +515,19 @@ def continues(prev: dict | None, e: dict) -> bool:
 
 
 def oracle_sequence(l: dict, default_errors: str, default_backoff: int, events: list[dict],
-                    from_scratch: bool = True) -> list[tuple[str, str]]:
+                    from_scratch: bool = True, broken_shape: str | None = None) -> list[tuple[str, str]]:
     """A whole observed history of one handler (one retry series): events are
     {"ev": "attempt", time, started, retry, invoked, x, end, merged, out, rec[, seen]} |
     {"ev": "idle", time, done[, seen]} | {"ev": "skipped", time} | {"ev": "restarted", time}.
     Every clause of the property is checked on every history. A failure of a whole-history clause at a
     point where the handler was shown a record that does not continue its own last attempt (stale event
     body, lost patch, kill between the handler call and the patch) is reported under the signature of
-    the known finding C11-F2; everywhere else it is a plain violation."""
+    the known finding C11-F2; everywhere else it is a plain violation. `broken_shape`: under which shape
+    such a failure is reported (default: C11-F2's; "" = there is no excuse, the history has no stale/lost/kill
+    steps, a broken chain is the code's own doing: the plain shape)."""
     bad: list[tuple[str, str]] = []
+    if broken_shape is None:
+        broken_shape = F2_SHAPE
     atts = [e for e in events if e["ev"] == "attempt"]
     inv = [a for a in atts if a["invoked"]]
     for a in atts:
@@ -509,9 +552,12 @@ def oracle_sequence(l: dict, default_errors: str, default_backoff: int, events: 
         return next(i for i, x in enumerate(atts) if x is a)
 
     def report(shape: str, msg: str, broken: bool) -> None:
-        if broken:
+        if broken and broken_shape == F2_SHAPE:
             bad.append((F2_SHAPE, f"[{shape}] {msg} — the handler had been shown a record that does not continue its "
                         "last attempt (stale body / lost patch / kill between call and patch)"))
+        elif broken and broken_shape:
+            bad.append((broken_shape, f"[{shape}] {msg} — the handler's first turn for this cause was on the record its "
+                        "namesake left from the superseded cause"))
         else:
             bad.append((shape, msg))
 
@@ -541,7 +587,7 @@ def oracle_sequence(l: dict, default_errors: str, default_backoff: int, events: 
             if a["invoked"]:
                 break
             if a["out"]["exc"] == "timeout" and T is not None and T > 0:
-                if broken_upto[k]:
+                if broken_upto[k] and broken_shape:
                     report("timed-out-before-first-invocation", "failed by timeout without a first invocation", True)
                 else:
                     bad.append((F3_SHAPE, f"recorded as failed by timeout={T} at {a['time']} ({a['time'] - a['started']} ticks "
@@ -656,6 +702,8 @@ def signature(shape: str, site: str) -> dict:
         return {"site": "daemons.spawn_daemons", "shape": F4_SHAPE}
     if shape == F5_SHAPE:
         return {"site": "progression.HandlerState.from_storage", "shape": F5_SHAPE}
+    if shape == F6_SHAPE:
+        return {"site": "subhandling.execute", "shape": F6_SHAPE}
     return {"site": site, "shape": shape}
 
 
@@ -1124,14 +1172,16 @@ def _gen_history(rng: random.Random, kind: str, gen_limits: Any, gen_script: Any
         h["plan"] = gen_plan(rng)
     if kind == "pair" and rng.random() < 0.4:
         h["lifecycle"] = "asap"       # kopf's default: one handler per cycle
-    if kind in ("change", "pair") and rng.random() < 0.3:
+    if (kind in ("change", "pair") and rng.random() < 0.3) or (kind == "sub" and rng.random() < 0.25):
         # through the REAL process_changing_cause: a real registry (with resuming handlers, initial=True,
         # and the causes they are selected for), purposes, the purge when the handling is done
         h["proc"] = True
         h["reason"] = rng.choice(["create", "update", "resume", "resume"])
         h["cause_initial"] = h["reason"] == "resume" or rng.random() < 0.5
         for hd in h["handlers"]:
-            hd["initial"] = rng.choice([None, None, True]) if h["cause_initial"] else None
+            hd["initial"] = rng.choice([None, None, True]) if h["cause_initial"] and "/" not in hd["id"] else None
+        if rng.random() < (0.7 if kind == "sub" else 0.5):
+            gen_stacked(rng, h, gen_limits)
     elif kind in ("change", "pair", "sub") and rng.random() < 0.4:
         # the adversarial environment: stale event bodies, lost patches, kills between call and patch
         envs = []
@@ -1147,6 +1197,54 @@ def _gen_history(rng: random.Random, kind: str, gen_limits: Any, gen_script: Any
                 envs.append({"view": rng.choice([1, 1, 2, 5])})
         h["env"] = envs
     return h
+
+
+def gen_stacked(rng: random.Random, h: dict, gen_limits: Any) -> None:
+    """One function registered under ONE id for TWO reasons (stacked decorators: two handlers with their
+    own limits, one progress record), and the second cause superseding the first after `switch` cycles,
+    usually while the first handling is still open. Bound+bound (create/update, then delete), or the
+    resuming mix-in (`@kopf.on.resume`: no reason of its own) stacked with `@kopf.on.update` in either order
+    (the registry's de-duplication keeps the first registered of the two when both match)."""
+    first = h["handlers"][0]
+    combo = rng.choice([("create", "delete"), ("update", "delete"), ("update", "delete"), ("resume", "update")])
+    if h["kind"] == "sub" and combo[0] == "resume":
+        combo = ("update", "delete")
+    l2 = lim_json(gen_limits(rng))
+    if rng.random() < 0.5:
+        # the inherited count / clock is what would hurt: the second registration with small limits of its own
+        l2["retries"] = rng.choice([1, 2, 3, 3, 5])
+    h["reason"] = combo[0]
+    h["cause_initial"] = combo[0] == "resume" or bool(h.get("cause_initial"))
+    regs = [{"reason": combo[0], "limits": lim_json(first["limits"]), "initial": first.get("initial")},
+            {"reason": combo[1], "limits": l2, "initial": None}]
+    if combo[0] == "resume":
+        regs[0].update(reason=None, initial=True)
+        if rng.random() < 0.5:
+            regs.reverse()      # the bound registration first: it is the one kept for the update cause
+    else:
+        regs[0]["initial"] = None
+        first["initial"] = None
+    h["stacked"] = {"id": first["id"], "causes": list(combo), "switch": rng.choice([1, 1, 2, 2, 3, 4]), "regs": regs}
+    if first["script"] and rng.random() < 0.85:
+        # keep the first handling open until the switch: the function fails in its first calls
+        k = h["stacked"]["switch"]
+        head = [[rng.choice([["temporary", rng.choice([0, Q, TPS])], ["temporary", TPS], ["arbitrary"]]), 0] for _ in range(k)]
+        def relax(l: dict) -> None:
+            # … and its own limits do not end the first handling before the second cause comes
+            l.update(errors=rng.choice([None, "temporary"]), retries=rng.choice([None, k + 1, k + 2, 5]),
+                     timeout=rng.choice([None, None, 90 * TPS, DAY]))
+        loose = rng.random() < 0.75
+        if h["kind"] != "sub":
+            first["script"] = head + first["script"]
+            if loose:
+                relax(first["limits"])
+                regs[0 if regs[0]["limits"] is not l2 else 1]["limits"] = lim_json(first["limits"])
+        else:
+            for hd in h["handlers"][1:]:
+                n = rng.choice([0, k, k, k])
+                hd["script"] = copy.deepcopy(head[:n]) + hd["script"]
+                if loose and n:
+                    relax(hd["limits"])
 
 
 class ChangeWorld:
@@ -1169,14 +1267,26 @@ class ChangeWorld:
         self.pending_sub: dict | None = None
         self.subcycles: list[dict] = []
         self.subrecs: dict[int, list] = {}
+        # one function per id: stacked registrations share it (the registry de-duplicates by function & id)
+        stacked = hist.get("stacked") or {}
+        fns = {h["id"]: (self.parent_fn() if self.sub and h["id"] == "p" else self.scripts[h["id"]].make_fn())
+               for h in hist["handlers"]}
+        tops = hist["handlers"][:1] if self.sub else hist["handlers"]
         if self.sub:
-            self.subs = [mk_handler("changing", h["id"], self.scripts[h["id"]].make_fn(), h["limits"])
-                         for h in hist["handlers"][1:]]
-            self.top = [mk_handler("changing", "p", self.parent_fn(), hist["handlers"][0]["limits"])]
-        else:
-            self.top = [mk_handler("changing", h["id"], self.scripts[h["id"]].make_fn(), h["limits"], initial=h.get("initial"))
-                        for h in hist["handlers"]]
+            self.subs = [mk_handler("changing", h["id"], fns[h["id"]], h["limits"]) for h in hist["handlers"][1:]]
+        self.top = []
+        self.reg_limits: list[dict] = []       # per registration (index in self.top)
+        for h in tops:
+            if h["id"] == stacked.get("id"):
+                for reg in stacked["regs"]:
+                    self.top.append(mk_handler("changing", h["id"], fns[h["id"]], reg["limits"], initial=reg.get("initial"),
+                                               reason=reg.get("reason")))
+                    self.reg_limits.append(lim_json(reg["limits"]))
+            else:
+                self.top.append(mk_handler("changing", h["id"], fns[h["id"]], h["limits"], initial=h.get("initial")))
+                self.reg_limits.append(lim_json(h["limits"]))
         self.proc = bool(hist.get("proc"))
+        self.switch_cycle: int | None = None     # the first cycle of the second cause (stacked registrations)
         self.closed = False
         if self.proc:
             self.registry = K.registries.OperatorRegistry()
@@ -1193,6 +1303,9 @@ class ChangeWorld:
         self.writes = {h["id"]: 0 for h in hist["handlers"]}
         self.versions: list[tuple[dict, dict]] = [(copy.deepcopy(self.body), dict(self.writes))]
         self.kill: int | None = None
+
+    def reg_of(self, handler: Any) -> int:
+        return next(i for i, o in enumerate(self.top) if o is handler)
 
     def parent_fn(self) -> Any:
         """The parent of the sub-handlers. What it does by itself is scripted as well: an own error is
@@ -1284,10 +1397,18 @@ class ChangeWorld:
         self.cycles += 1
         if self.memory is None:
             self.memory = K.inventory.ResourceMemory()
+        stacked = self.hist.get("stacked")
+        reason = K.causes.Reason(self.hist.get("reason", "create"))
+        if stacked and self.cycles > stacked["switch"]:
+            # the second cause supersedes the first one (an object marked for deletion carries the mark)
+            reason = K.causes.Reason(stacked["causes"][1])
+            if self.switch_cycle is None:
+                self.switch_cycle = self.cycles
+            if reason == K.causes.Reason.DELETE:
+                self.body["metadata"].setdefault("deletionTimestamp", "2030-01-01T00:00:00Z")
         self.view_body = self.body
         body = K.bodies.Body(self.body)
         patch = K.patches.Patch()
-        reason = K.causes.Reason(self.hist.get("reason", "create"))
         self.cause = cause = K.causes.ChangingCause(
             resource=self.resource, indices=self.indexers.indices, logger=K.logger, patch=patch, body=body,
             memo=K.ephemera.Memo(), initial=bool(self.hist.get("cause_initial")), reason=reason)
@@ -1295,22 +1416,33 @@ class ChangeWorld:
         t = now_ticks()
         peeks = {h.id: self.scripts[h.id].peek() for h in self.top}
         batches: list[dict] = []
+        def on_batch(entry: dict) -> None:
+            # the parent's execution is over (its sub-handlers' batch, if any, was stored into the patch;
+            # the parent's own outcome, the purge of a finished handling are not there yet)
+            if self.sub and any(h is o for h in self.top for o in entry["hobjs"]):
+                self.finish_sub(entry["outcomes"].get("p"))
+
         try:
-            with spy_batches(batches, None, lambda: {hid: len(sc.calls) for hid, sc in self.scripts.items()}):
+            with spy_batches(batches, on_batch, lambda: {hid: len(sc.calls) for hid, sc in self.scripts.items()}):
                 delays = await K.processing.process_changing_cause(
                     lifecycle=lifecycle, registry=self.registry, settings=self.settings, memory=self.memory, cause=cause)
         except BusyLoop:
             raise
         except Exception as e:
             raise Escaped("process_changing_cause", e) from e
+        if self.escaped is not None:
+            raise Escaped("kopf.execute (sub-handlers)", self.escaped)
         after = merge_patch(copy.deepcopy(self.body), dict(patch))
-        zero = {h.id: 0 for h in self.top}
+        zero = {h["id"]: 0 for h in self.hist["handlers"]}
         for b in batches:
-            batch = [h for h in self.top if h.id in b["handlers"]]
+            # the handler OBJECTS the code selected: of two registrations under one id only one is there
+            batch = [h for h in self.top if any(h is o for o in b["hobjs"])]
             mem_after = b.get("after") or {}
             self.record_batch(batch, b["t"], b.get("merged", b["end"]), b["c0"], b["before"], peeks, b["outcomes"],
                               {h.id: bool(mem_after.get(h.id) and (mem_after[h.id]["success"] or mem_after[h.id]["failure"]))
                                for h in batch}, after, zero, True, b["awake"], mem_after)
+        if self.sub:
+            self.record_subcycles(after, zero, True)
         self.body = after
         delays = list(delays)
         self.closed = not delays
@@ -1385,10 +1517,12 @@ class ChangeWorld:
                     self.events[h.id].append({"ev": "called-without-outcome", "time": t})
                 if awake[h.id]:
                     # awake, but the lifecycle picked another handler for this cycle
-                    self.events[h.id].append({"ev": "skipped", "time": t, "view": views[h.id], "stored": stored})
+                    self.events[h.id].append({"ev": "skipped", "time": t, "view": views[h.id], "stored": stored,
+                                              "reg": self.reg_of(h), "cyc": self.cycles})
                     continue
                 self.events[h.id].append({"ev": "idle", "time": t, "done": bool(finished[h.id]),
-                                          "view": views[h.id], "stored": stored, "seen": before[h.id]})
+                                          "view": views[h.id], "stored": stored, "seen": before[h.id],
+                                          "reg": self.reg_of(h), "cyc": self.cycles})
                 continue
             o = outcomes[h.id]
             call = calls[0] if calls else None
@@ -1399,7 +1533,7 @@ class ChangeWorld:
                 "ev": "attempt", "gate": t, "time": start, "started": before[h.id]["started"], "retry": before[h.id]["retries"],
                 "invoked": bool(call), "calls": len(calls), "retry_kwarg": call["retry"] if call else None,
                 "x": x, "dur": dur, "end": end, "merged": merged, "view": views[h.id], "stored": stored,
-                "seen": before[h.id],
+                "seen": before[h.id], "reg": self.reg_of(h), "cyc": self.cycles,
                 "out": out_json(o, bool(call), call["exc"] if call else None),
                 # what the cycle stored; when the real cycle has purged the records of a finished handling,
                 # the state it was merged into in memory
@@ -1426,7 +1560,7 @@ class ChangeWorld:
                         self.events[h.id].append({"ev": "called-without-outcome", "time": sc["t"]})
                     done = bool(rec_before and (rec_before["success"] or rec_before["failure"]))
                     self.events[h.id].append({"ev": "idle", "time": sc["t"], "done": done, "view": views[h.id],
-                                              "stored": stored, "seen": rec_before})
+                                              "stored": stored, "seen": rec_before, "cyc": self.cycles})
                     continue
                 wrote.append(h.id)
                 rec_after = rec_tent
@@ -1453,7 +1587,7 @@ class ChangeWorld:
                     "retry_kwarg": call["retry"] if call else None, "x": x, "dur": dur, "end": end, "merged": st_merged,
                     "view": views[h.id], "stored": stored, "seen": rec_before or fresh_rec,
                     "out": {"invoked": bool(call), "final": final, "delay": delay, "exc": exc}, "rec": rec_after,
-                    "pi": sc["pi"]})
+                    "pi": sc["pi"], "cyc": self.cycles})
                 clock = end
             self.subrecs[sc["pi"]] = recs
         self.subcycles.clear()
@@ -1524,7 +1658,9 @@ def run_change_history(hist: dict) -> dict:
         asyncio.set_event_loop(None)
         simloop.reset_wall()
     return {"events": world.events, "limits": world.limits, "cycles": world.cycles, "subrecs": world.subrecs,
-            "calls": {k: len(s.calls) for k, s in world.scripts.items()}, "closed": world.closed}
+            "calls": {k: len(s.calls) for k, s in world.scripts.items()}, "closed": world.closed,
+            "reg_limits": world.reg_limits, "switch_cycle": world.switch_cycle,
+            "reg_initial": [bool(h.initial) for h in world.top]}
 
 
 @contextlib.contextmanager
@@ -1541,6 +1677,7 @@ def spy_batches(log: list, on_batch: Any = None, ncalls: Any = None, probe: Any 
         entry = {"t": now_ticks(), "before": {hid: rec_of_state(st[hid]) for hid in st},
                  "awake": {hid: bool(st[hid].awakened) for hid in st}, "c0": ncalls() if ncalls else 0}
         entry["handlers"] = [str(h.id) for h in (kw.get("handlers") or [])]
+        entry["hobjs"] = list(kw.get("handlers") or [])
         if probe is not None:
             entry.update(probe())
         outcomes = await real_exec(*args, **kw)
@@ -1868,7 +2005,7 @@ def impl_events(events: list[dict]) -> list:
             out.append({"ev": "attempt", "time": e["time"], "retry": e["retry"], "out": e["out"], "end": e["end"],
                         "merged": e["merged"], "rec": e["rec"]})
         else:
-            out.append({k: v for k, v in e.items() if k not in ("pi", "view", "stored", "rec_before", "rec_after", "seen", "iu")})
+            out.append({k: v for k, v in e.items() if k not in ("pi", "view", "stored", "rec_before", "rec_after", "seen", "iu", "reg", "cyc")})
     return out
 
 
@@ -1894,39 +2031,49 @@ def _history_checks(hist: dict, kind: str, db: int, env: dict) -> list[dict]:
     multi = kind == "activity" and len(hist["handlers"]) > 1
     if kind in ("change", "pair", "sub") or multi:
         obs = run_activity_multi(hist) if multi else run_change_history(hist)
+        # without stale/lost/kill steps nothing but the code itself can show a handler a record that does not
+        # continue its last attempt: no excuse then
+        excuse = F2_SHAPE if hist.get("env") else ""
         for hid, events in obs["events"].items():
-            l = obs["limits"][hid]
-            first = next((e for e in events if e["ev"] in ("attempt", "idle", "skipped")), None)
-            if first is None:
-                continue
-            bad = oracle_sequence(l, "temporary", db, events)
-            bad += [("called-without-outcome", "function called but no outcome") for e in events if e["ev"] == "called-without-outcome"]
-            bad += [("called-twice", "function called twice in one execution") for e in events if e.get("calls", 0) > 1]
-            bad += [("retry-kwarg", "retry kwarg differs from the stored count") for e in events
-                    if e["ev"] == "attempt" and e["invoked"] and e["retry_kwarg"] != e["retry"]]
-            atts_h = [e for e in events if e["ev"] == "attempt"]
-            # (a sub-handler is abandoned when its PARENT fails for good: the parent's verdict, checked on the parent)
-            if not multi and "/" not in hid and obs.get("closed") and not hist.get("env") and atts_h and atts_h[-1]["rec"] is not None \
-                    and not (atts_h[-1]["rec"]["success"] or atts_h[-1]["rec"]["failure"]):
-                # "is retried": the handling was declared finished (nothing left to wait for; the real
-                # cycle purges the progress then) while this handler's last outcome asked for a retry
-                bad.append(("retry-abandoned", f"the processing ended as done at cycle {obs['cycles']} although the last "
-                            f"outcome of the handler (at {atts_h[-1]['end']}, retry={atts_h[-1]['retry']}) was a retry: "
-                            "it is never retried"))
-            evs = [e for e in events if e["ev"] != "called-without-outcome"]
-            evs = evs[next(i for i, e in enumerate(evs) if e is first):]     # restarts before the handler's first cycle
-            t0 = first["gate"] if first["ev"] == "attempt" else first["time"]
-            chk = {"hid": hid, "limits": l, "events": evs,
-                   "request": ["C11.runAbs", env, l, t0, abs_steps(evs)], "impl": impl_events(evs), "oracle": bad}
-            want = (hist.get("expect") or {}).get(hid)
-            if want is not None:
-                # a Lean witness replayed on the real code: it must show exactly what the theorem says
-                got = {"invocations": [[e["time"] - t0, e["retry"]] for e in evs if e["ev"] == "attempt" and e["invoked"]],
-                       "idle": [[e["time"] - t0, e["done"]] for e in evs if e["ev"] == "idle"]}
-                got = {k: (got[k][:len(want[k])] if k == "idle" else got[k]) for k in want}
-                if got != want:
-                    chk["tie"] = f"the witness {hist.get('witness')} does not reproduce on the code: expected {want}, observed {got}"
-            checks.append(chk)
+            for label, l, evs_part, oracle_parts, last_part in registration_parts(hist, obs, hid, events, excuse):
+                first = next((e for e in evs_part if e["ev"] in ("attempt", "idle", "skipped")), None)
+                if first is None:
+                    continue
+                bad: list[tuple[str, str]] = []
+                for part, shape in oracle_parts:
+                    if any(e["ev"] in ("attempt", "idle", "skipped") for e in part):
+                        bad += oracle_sequence(l, "temporary", db, part, broken_shape=shape)
+                bad += [("called-without-outcome", "function called but no outcome") for e in evs_part if e["ev"] == "called-without-outcome"]
+                bad += [("called-twice", "function called twice in one execution") for e in evs_part if e.get("calls", 0) > 1]
+                bad += [("retry-kwarg", "retry kwarg differs from the stored count") for e in evs_part
+                        if e["ev"] == "attempt" and e["invoked"] and e["retry_kwarg"] != e["retry"]]
+                atts_h = [e for e in evs_part if e["ev"] == "attempt"]
+                # (a sub-handler is abandoned when its PARENT fails for good: the parent's verdict, checked on the parent;
+                # a handler that is not declared for the cause that superseded its own — the other registration of a
+                # stacked pair, a resuming handler on a deletion — is not retried: that is the supersession)
+                superseded = obs.get("switch_cycle") is not None and not any(
+                    e["ev"] in ("attempt", "idle", "skipped") and e.get("cyc", 0) >= obs["switch_cycle"] for e in evs_part)
+                if not multi and "/" not in hid and last_part and not superseded and obs.get("closed") and not hist.get("env") and atts_h \
+                        and atts_h[-1]["rec"] is not None and not (atts_h[-1]["rec"]["success"] or atts_h[-1]["rec"]["failure"]):
+                    # "is retried": the handling was declared finished (nothing left to wait for; the real
+                    # cycle purges the progress then) while this handler's last outcome asked for a retry
+                    bad.append(("retry-abandoned", f"the processing ended as done at cycle {obs['cycles']} although the last "
+                                f"outcome of the handler (at {atts_h[-1]['end']}, retry={atts_h[-1]['retry']}) was a retry: "
+                                "it is never retried"))
+                evs = [e for e in evs_part if e["ev"] != "called-without-outcome"]
+                evs = evs[next(i for i, e in enumerate(evs) if e is first):]     # restarts before the handler's first cycle
+                t0 = first["gate"] if first["ev"] == "attempt" else first["time"]
+                chk = {"hid": label, "limits": l, "events": evs,
+                       "request": ["C11.runAbs", env, l, t0, abs_steps(evs)], "impl": impl_events(evs), "oracle": bad}
+                want = (hist.get("expect") or {}).get(label)
+                if want is not None:
+                    # a Lean witness replayed on the real code: it must show exactly what the theorem says
+                    got = {"invocations": [[e["time"] - t0, e["retry"]] for e in evs if e["ev"] == "attempt" and e["invoked"]],
+                           "idle": [[e["time"] - t0, e["done"]] for e in evs if e["ev"] == "idle"]}
+                    got = {k: (got[k][:len(want[k])] if k == "idle" else got[k]) for k in want}
+                    if got != want:
+                        chk["tie"] = f"the witness {hist.get('witness')} does not reproduce on the code: expected {want}, observed {got}"
+                checks.append(chk)
         if kind == "sub":
             checks += sub_parent_checks(hist, obs)
         if multi:
@@ -2042,6 +2189,63 @@ def _history_checks(hist: dict, kind: str, db: int, env: dict) -> list[dict]:
     return checks
 
 
+def registration_parts(hist: dict, obs: dict, hid: str, events: list[dict], excuse: str) -> list[tuple]:
+    """'With retries=N a HANDLER is invoked at most N times': a handler is one registration — one decorator
+    with its own limits, bound to its reason — within the handling of one cause. The events observed
+    under one id are split into the series of the registrations the code selected (by the handler OBJECT
+    it executed). Returns [(label, limits, events for the model, [(events for the oracle, shape under which
+    a whole-history failure on a record that does not continue the series is reported)], is the last)].
+    * a top-level id with stacked registrations: one part per run of one registration; the model starts
+      every part from scratch (f7d6401), the oracle has no excuse for a first turn on a foreign record;
+    * the sub-handlers of a stacked parent: the code (subhandling.execute) carries their records over to
+      the parent's second registration — ONE series for the model (what the code does), two for the
+      oracle (what the property says), the second one's failures under the finding C11-F6;
+    * everything else: one part."""
+    st = hist.get("stacked")
+    if not st or "reg_limits" not in obs:
+        return [(hid, obs["limits"][hid], events, [(events, excuse)], True)]
+    if "/" not in hid:
+        runs: list[tuple[int, list[dict]]] = []
+        for e in events:
+            if "reg" in e and (not runs or runs[-1][0] != e["reg"]):
+                runs.append((e["reg"], []))
+            if runs:
+                runs[-1][1].append(e)
+        # a RESUMING handler (initial=True) is for "the operator has started and the object is there": one
+        # handling per operator process. Once it is finished, a new operator (a restart) may run it again
+        # (whether it does depends on whether the finished record is still on the object: C02/C03's subject):
+        # where the code did so, a new series begins. Without a restart in between there is no such excuse.
+        runs2: list[tuple[int, list[dict]]] = []
+        for reg, evs in runs:
+            runs2.append((reg, []))
+            fin, restarted = False, False
+            for e in evs:
+                if e["ev"] == "restarted":
+                    restarted = True
+                elif e["ev"] in ("attempt", "skipped") and obs["reg_initial"][reg] and fin and restarted and \
+                        (e["ev"] == "skipped" or continues(None, e)):
+                    tail = []
+                    while runs2[-1][1] and runs2[-1][1][-1]["ev"] == "restarted":
+                        tail.insert(0, runs2[-1][1].pop())
+                    runs2.append((reg, tail))
+                    fin = False
+                if e["ev"] == "attempt":
+                    fin, restarted = bool(e["out"]["final"]), False
+                runs2[-1][1].append(e)
+        out = []
+        for k, (reg, evs) in enumerate(runs2):
+            label = hid if k == 0 else f"{hid}@{k}"
+            out.append((label, obs["reg_limits"][reg], evs, [(evs, excuse)], k == len(runs2) - 1))
+        return out
+    if "/" in hid and hid.split("/")[0] == st["id"]:
+        c_switch = obs.get("switch_cycle")
+        if c_switch is not None:
+            one = [e for e in events if e.get("cyc", 0) < c_switch]
+            two = [e for e in events if e.get("cyc", 0) >= c_switch]
+            return [(hid, obs["limits"][hid], events, [(one, excuse), (two, F6_SHAPE)], True)]
+    return [(hid, obs["limits"][hid], events, [(events, excuse)], True)]
+
+
 def sub_parent_checks(hist: dict, obs: dict) -> list[dict]:
     """The delay a parent asks for must be the earliest `delayed` of its unfinished sub-handlers
     (property: never sooner than the requested delay — here the request comes from the children)."""
@@ -2101,6 +2305,14 @@ def run_histories(ctx: Ctx, hists: list[dict], use_model: bool = True) -> None:
         ctx.count("history.kind", hist["kind"])
         ctx.count("history.flavour", hist.get("flavour", "corpus"))
         ctx.count("history.lifecycle", hist.get("lifecycle", "all_at_once") if hist["kind"] in ("change", "pair", "sub") else "n/a")
+        if hist["kind"] in ("change", "pair", "sub"):
+            st = hist.get("stacked")
+            ctx.count("history.cycle", ("real process_changing_cause" if hist.get("proc") else "re-implemented") +
+                      (", stacked " + "+".join(st["causes"]) if st else ""))
+            if st:
+                ctx.count("history.stacked", "the second cause came" if any("@" in c["hid"] for c in checks) or
+                          (hist["kind"] == "sub" and any(c["hid"].startswith("p@") for c in checks)) else
+                          ("mix-in kept / first handling ended before the switch"))
         for chk in checks:
             atts = [e for e in chk["events"] if e["ev"] == "attempt"]
             nontrivial = any((not e["out"]["final"]) or e["out"]["exc"] != "none" for e in atts) or \
